@@ -553,6 +553,15 @@ func (fc *FnCtx) mergeStates(sts []*State) *State {
 	}
 	m := base.clone()
 	m.pc = append([]string(nil), base.pc[:p]...)
+	// The merged values below are nested ite terms keyed on the branch conditions, which is right only if the conditions
+	// exclude one another (c / not c of an `if`, the cases of a switch). Branches of a free choice (the cases of a select,
+	// outcomes of a call) do not: then a fresh selector is put in front of every condition.
+	if !pairwiseExclusive(sts, p) {
+		sel := fc.smt.fresh("joinsel", "Int")
+		for i := range conds {
+			conds[i] = and(fmt.Sprintf("(= %s %d)", sel, i), conds[i])
+		}
+	}
 	// name long branch conditions: they are repeated in every merged variable / heap component
 	for i, c := range conds {
 		if len(c) > 200 {
@@ -732,4 +741,30 @@ func (fc *FnCtx) opaqueField(st *State, base Val, sT types.Type, f *types.Var) V
 		fc.assumeTyped(st, v)
 	}
 	return v
+}
+
+// pairwiseExclusive: every two of the states carry, after their common prefix, a literal and its negation.
+func pairwiseExclusive(sts []*State, p int) bool {
+	lits := make([]map[string]bool, len(sts))
+	for i, s := range sts {
+		lits[i] = map[string]bool{}
+		for _, c := range s.pc[p:] {
+			lits[i][c] = true
+		}
+	}
+	for i := 0; i < len(sts); i++ {
+		for j := i + 1; j < len(sts); j++ {
+			ex := false
+			for c := range lits[i] {
+				if lits[j][not(c)] || (strings.HasPrefix(c, "(not ") && lits[j][c[5:len(c)-1]]) {
+					ex = true
+					break
+				}
+			}
+			if !ex {
+				return false
+			}
+		}
+	}
+	return true
 }
